@@ -352,14 +352,15 @@ example (ext : Ext) : ([Op.setDebug true, Op.reconfigureNil].foldl (Mw.step ext)
 /-- **C09 (translated pipeline).** The four decision steps of the preflight pipeline — `processOriginForPreflight`,
 `processACRPN`, `processACRM`, `processACRH` — are translated from /repo's middleware.go into Lean on every run
 (Gen/Pipeline.lean, by harness/extract/translate.go); for every internal configuration, buffer, request headers and debug
-mode each translated function equals the hand-written model's (with the model's own origin and header-list decisions),
+mode each translated function returns the hand-written model's result (with the model's own origin and header-list decisions) —
+and, when the step fails, the buffer exactly as it was: a failing step leaves nothing behind for debug mode to copy —,
 so the theorems of this file speak about the code as it reads now.  An edit of one of these Go functions that changes its
 meaning — or leaves the translated subset — breaks this obligation. -/
 theorem C09_pipeline_translated (icfg : ICfg) (buf : Serve.Buf) (reqHdrs : HdrMap) (origin acrm : Bytes) (debug : Bool) :
-    Gen.Pipeline.processOriginForPreflight icfg buf origin [origin] = Serve.processOriginForPreflight (Serve.modelDec icfg) icfg buf origin ∧
-    Gen.Pipeline.processACRPN icfg buf reqHdrs = Serve.processACRPN icfg buf reqHdrs ∧
-    Gen.Pipeline.processACRM icfg buf acrm [acrm] = Serve.processACRM icfg buf acrm ∧
-    Gen.Pipeline.processACRH icfg buf reqHdrs debug = Serve.processACRH (Serve.modelDec icfg) icfg buf reqHdrs debug :=
+    Gen.Pipeline.processOriginForPreflight icfg buf origin [origin] = GoRt.result buf (Serve.processOriginForPreflight (Serve.modelDec icfg) icfg buf origin) ∧
+    Gen.Pipeline.processACRPN icfg buf reqHdrs = GoRt.result buf (Serve.processACRPN icfg buf reqHdrs) ∧
+    Gen.Pipeline.processACRM icfg buf acrm [acrm] = GoRt.result buf (Serve.processACRM icfg buf acrm) ∧
+    Gen.Pipeline.processACRH icfg buf reqHdrs debug = GoRt.result buf (Serve.processACRH (Serve.modelDec icfg) icfg buf reqHdrs debug) :=
   Translated.pipeline_eq icfg buf reqHdrs origin acrm debug
 
 #print axioms C09_pipeline_translated
